@@ -54,6 +54,10 @@ ASSUMPTIONS = [
     "deliver before the reader task runs (StreamReader buffer); feed after end-of-stream is not generated",
     "the reader task's trace on the implementation side is recorded by wrappers around HSFZConnection._read_frame and "
     "send_alive_msg (what _read_frame returned, that send_alive_msg was entered, IncompleteReadError)",
+    "clause 'error control words surface' is judged on the implementation as: the client consumes the queue in arrival order, so "
+    "no read may deliver a data frame and no write may complete by an ack that arrived behind a control word other than data / "
+    "ack / alive (the n-th successful write echoing e needs at least the n-th matching ack of the stream); WHICH connection "
+    "error a call that meets no ack ends with (error word at once vs. 'no ack' at the deadline) is compared with the model only",
     "frames of other address pairs and stale acks skipped by a read() that then ends by an exception (timeout, error word, "
     "end of stream) are dropped by the code (local list) - modelled as the code does it, not part of the property "
     "(the property protects frames skipped by the ack wait); `hsfz_foreign_preserved` / `hsfz_acks_used_once` are therefore "
@@ -98,11 +102,16 @@ def alphabet(req: bytes, i: int = 0):
         "s10": fr(1, b""), "s11": fr(1, b"\xaa"), "s20": fr(2, b""), "s21": fr(2, bytes([SRC])),
         "e40": fr(0x40, b""), "e41": fr(0x41, bytes([SRC, DST])), "eFF": fr(0xFF, b"\x01\x02\x03"),
         "e42s": fr(0x42, b"\x07"),
+        # error control words as a gateway sends them: empty body / address body (tester address echoed)
+        "e40a": fr(0x40, bytes([0x00, SRC])), "e42": fr(0x42, b""), "e43a": fr(0x43, bytes([SRC, DST])), "e44": fr(0x44, b""),
+        "e45a": fr(0x45, bytes([DST, SRC])), "eFF0": fr(0xFF, b""), "st11": fr(0x11, b""), "u300a": fr(0x300, bytes([DST, SRC]) + p),
         "st10": fr(0x10, bytes([DST, SRC])), "st13": fr(0x13, b""), "u77": fr(0x77, b""), "u0": fr(0, b"\x00\x00\x00"),
     }
 
 
 CORE = ["ack", "ackP", "ackE", "dT", "dO", "alive", "s11", "e40"]
+# control words other than data / ack / alive check: queued by the reader task as a bare word, whatever the body
+CTRL = ["e40", "e40a", "e41", "e42", "e42s", "e43a", "e44", "e45a", "eFF", "eFF0", "st10", "st11", "st13", "u77", "u0", "u300a"]
 FULL = list(alphabet(REQ_LONG).keys())
 
 
@@ -562,6 +571,31 @@ def spec_check(plan, ops, arrivals, reports):
                                  f"{avail[delivered]['data'].hex()} had been received completely at {avail[delivered]['t']} ms "
                                  f"and not been delivered"))
                     break
+    # S9: error control words surface: the client takes the queue in arrival order, so no call may succeed by a frame
+    # that arrived BEHIND an error / status control word - the k-th delivered payload is the k-th ECU->tester data frame
+    # (S1a), the n-th successful write echoing e needs (at least) the n-th matching ack of the stream: both must lie in
+    # front of the first control word (a call that meets the word ends with a connection error and closes the connection)
+    if not viol and err_arrivals:
+        first_err = min(fr_info.index(e) for e in err_arrivals)
+        ew = fr_info[first_err]
+        ew_show = f"control word {ew['cw']:#x} (frame #{first_err} of the stream, arrived at {ew['t']} ms)"
+        for k, (i, t, pay) in enumerate(got):
+            if k < len(expected) and fr_info.index(expected[k]) > first_err:
+                viol.append(("error-word-not-surfaced", f"read issued at op {i} returned {pay} at {t} ms, a frame that arrived behind "
+                                                        f"{ew_show}: the error never surfaced"))
+                break
+        nth = {}
+        for i, op in client_ops:
+            if op[0] != "write" or i not in results or not results[i][1].startswith("wrote"):
+                continue
+            req = bytes.fromhex(op[1])
+            nth[req[:5]] = nth.get(req[:5], 0) + 1
+            before = [a for a in fr_info[:first_err] if is_ack(a, req)]
+            if len(before) < nth[req[:5]] and any(is_ack(a, req) for a in fr_info[first_err:]):
+                viol.append(("error-word-not-surfaced", f"write of {req.hex()} issued at op {i} ({t_before[i]} ms) completed at "
+                                                        f"{results[i][0]} ms by an ack that arrived behind {ew_show}: the error never "
+                                                        f"surfaced, the connection stays in use"))
+                break
     # S0: a client operation ends with its result, a timeout or a connection error - never with another exception
     for i, op in client_ops:
         if i in results and results[i][1].startswith("exc:"):
@@ -707,7 +741,7 @@ def sys_program(calls, slots, req, ack, yields, variant):
     steps = []
 
     def F(k):
-        return [["F", frames_of(slots[k], req), []]] if slots[k] else []
+        return [["F", frames_of(slots[k], req, 10 * k), []]] if slots[k] else []
     if variant == 1:
         steps += F(0) + [["C"], ["A", 3]]
     else:
@@ -781,6 +815,37 @@ def gen_sys_plans(ctx):
                     add("sys-error-words-every-phase", calls, slots)
     ctx.exhaustive_parts.append(f"control words other than data / ack / alive (and short data / ack frames) at every phase of every client "
                                 f"program of 2-3 calls ({n2} executions)")
+    # (S2b) the gateway keeps acknowledging and answering every request (ack + data 7 ms after each write started) while one
+    # further item - a control word, an early ack, a foreign frame - arrives in one phase, in front of or behind the answer
+    n2b = 0
+    items = CTRL + ["ack", "ackE", "dO"]
+    for n in (2, 3):
+        for calls in itertools.product(CALLS, repeat=n):
+            if not any(c in ("W", "Wt") for c in calls):
+                continue
+            for k in range(n + 1):
+                for front in (0, 1):
+                    for rep in range(2):
+                        l = items[(n2b * 7 + rep * 5) % len(items)]
+                        n2b += 1
+                        slots = [[] for _ in range(n + 1)]
+                        for j, call in enumerate(calls):
+                            if call in ("W", "Wt"):
+                                slots[j + 1] = ["ack", "dT"]
+                        slots[k] = ([l] + slots[k]) if front else (slots[k] + [l])
+                        add("sys-gateway-keeps-acking", calls, slots)
+    ctx.exhaustive_parts.append(f"whole executions with a gateway that acks and answers every write: every client program of 2-3 calls with a "
+                                f"write x every phase x one further item (control words {CTRL}, early ack, wrong-echo ack, foreign data; "
+                                f"rotating) in front of / behind the answer of that phase ({n2b} executions)")
+    # (S2c) ack timeouts in the URI that are not whole seconds / not multiples of 100 ms: write without ack, write acked
+    # 3 ms before the deadline, read
+    for ack in (1, 250, 999, 1001, 1499, 1999, 60001, 90500):
+        for d in (None, -3 if ack > 10 else 0, 5):
+            steps = [["C"], ["A", 2], ["W", REQ_SHORT.hex(), None]]
+            steps += [["A", ack + 20]] if d is None else [["A", ack + d], ["F", frames_of(["ack", "dT"], REQ_SHORT), []], ["A", 30]]
+            steps += reads(1) + [["W", REQ_SHORT.hex(), None], ["A", ack + 20]]
+            plans.append(("sys-uri-ack-timeout-odd", {"sys": 1, "cfg": cfg(ack, 0), "pos": "sys-uri-ack", "labels": [] if d is None else ["ack", "dT"],
+                                                      "steps": steps}))
     # (S3) frames, then the end of the stream (before / after connect()), then calls
     n3 = 0
     for calls in itertools.product(CALLS, repeat=2):
@@ -870,9 +935,9 @@ def cfg(ack, yields):
     return {"src": SRC, "dst": DST, "ack": ack, "yields": int(yields)}
 
 
-def frames_of(labels, req):
+def frames_of(labels, req, n0=0):
     out = []
-    n = 0
+    n = n0
     for l in labels:
         a = alphabet(req, n)
         if l.startswith("d"):
@@ -1133,6 +1198,40 @@ def gen_plans(ctx):
                                      ["W", req2.hex(), None], ["A", 7], ["F", a2, []], ["A", ack + 20]] + reads(3)
                             plans.append(("late-ack-then-write", {"cfg": cfg(ack, y), "pos": "late-ack", "labels": list(pre) + ["ack", "ack", "dT"],
                                                                   "steps": steps}))
+    # (3d) a gateway that goes on acknowledging and answering: one ordinary exchange, then - while the tester is IDLE - a
+    # control word (every member of the enum and unknown words, empty / address / longer bodies), an early ack or a foreign
+    # frame, with frames queued in front of / behind it, optionally a read in between, then two more requests which the
+    # gateway acks and answers, and reads.  What is queued when a write starts is what its ack wait sees first.
+    n3d = 0
+    for l in CTRL + ["ack", "ackE", "ackP", "dO", "s21"]:
+        for pre in ((), ("dT",), ("dO",), ("ack",), ("dT", "ackE")):
+            for post in ((), ("dT",), ("ack",)):
+                for rd in (0, 1):
+                    ack, y, req = rot()
+                    n3d += 1
+                    answer = lambda n0: [["A", 7], ["F", frames_of(["ack", "dT"], req, n0), []], ["A", ack + 20]]
+                    idle = list(pre) + [l] + list(post)
+                    steps = ([["W", req.hex(), None]] + answer(0) + [["R", 40], ["A", 5], ["F", frames_of(idle, req, 10), []], ["A", 13]]
+                             + ([["R", 40], ["A", 5]] if rd else [])
+                             + [["W", req.hex(), None]] + answer(20) + [["R", 40], ["A", 5], ["W", req.hex(), ack + 77]] + answer(30) + reads(3))
+                    plans.append(("idle-item-gateway-keeps-acking", {"cfg": cfg(ack, 0), "pos": "idle-then-acked-writes",
+                                                                     "labels": ["ack", "dT"] + idle + ["ack", "dT", "ack", "dT"], "steps": steps}))
+    ctx.exhaustive_parts.append(f"a gateway that keeps acknowledging: an exchange, then while the tester is idle each of {len(CTRL)} control words "
+                                f"(all enum members other than data / ack / alive, unknown words; empty, address and longer bodies) or an early / "
+                                f"stale ack / foreign frame x 5 sets of frames queued in front x 3 behind x with / without a read in between, "
+                                f"then two acked and answered requests and reads ({n3d} plans)")
+    # (3e) ack timeouts from the URI that are no multiple of 100 / 1000 ms, below one second, above one minute: no ack
+    # (failure exactly at the deadline), ack 3 ms before, ack 5 ms after the deadline
+    n3e = 0
+    for ack in (1, 9, 250, 999, 1001, 1499, 1999, 59999, 60001, 90500):
+        for pos in ("between-write-and-ack", "just-before-ack-timeout", "after-ack-timeout"):
+            for labels in ((), ("ack",), ("dT", "ack")):
+                if ack < 10 and pos == "just-before-ack-timeout":
+                    continue
+                n3e += 1
+                plans.append(("uri-ack-timeout-odd", template(pos, labels, REQ_SHORT, ack, 0, caller=None if n3e % 3 else ack * 2 + 1)))
+    ctx.exhaustive_parts.append(f"ack timeouts 1, 9, 250, 999, 1001, 1499, 1999, 59999, 60001, 90500 ms from the URI x ack early / 3 ms before / "
+                                f"5 ms after the deadline / none ({n3e} plans)")
     # (4) seeded: full alphabet, longer sequences, frames spread over several positions, multi-splits
     LMAX = _pk(ctx, 4, 6, 6)
     for _ in range(_pk(ctx, 2500, 30000, 12000)):
@@ -1454,7 +1553,10 @@ MANIFEST = {
                    "(frames handled by the reader task ++ complete in the buffer = the stream's frames, all handled on an open "
                    "connection), `hsfz_alive_always_answered_partial` (every alive check in the reader's trace followed by its reply; "
                    "reply bytes / instant / independence of the client phase per step), `hsfz_closed_never_blocks`, "
-                   "`hsfz_error_word_closes_partial` (closed is final, later calls fail at once). "
+                   "`hsfz_error_word_closes_partial` (closed is final, later calls fail at once), "
+                   "`hsfz_idle_error_word_fails_next_write` (a control word queued while the tester is idle, behind frames that are not "
+                   "the ack, fails the next write at the instant it starts and closes the connection - whatever the gateway sends "
+                   "meanwhile, acks included). "
                    "Tied to the code by tables regenerated from hsfz.py (enum, struct formats, literals, match arms) with agreement "
                    "theorems, and by a differential run of the real HSFZTransport/HSFZConnection over in-memory streams under virtual "
                    "time: all frame sequences up to length 4 (quick) / 5 (thorough) over an 8-symbol gateway alphabet x 6 injection "
@@ -1469,7 +1571,13 @@ MANIFEST = {
                    "frame in every phase (also before connect()), 2-call programs x all 2-frame sequences x placements, 9 further "
                    "control words / short frames at every phase, frames then EOF (before / after connect()) then calls, acks around "
                    "both deadlines then further writes / close, bursts of 40-70 frames with an alive check in every client phase, "
-                   "seeded event lists; the property's clauses (incl. reader trace = stream frames, alive reply after every alive "
+                   "seeded event lists; a gateway that keeps acknowledging and answering every request while one of 16 control words "
+                   "(every enum member other than data / ack / alive and unknown words, with empty, address and longer bodies), an "
+                   "early / stale ack or a foreign frame arrives in any phase - in particular while the tester is idle between two "
+                   "calls, with frames queued in front / behind, with / without a read in between - followed by further acked writes "
+                   "and reads (plain and whole executions); ack timeouts from the URI that are no whole seconds / no multiple of "
+                   "100 ms / above a minute (1 .. 90500 ms) with acks around the deadline; the property's clauses (incl. no call "
+                   "succeeds by a frame that arrived behind an error control word, reader trace = stream frames, alive reply after every alive "
                    "check, calls on a closed connection fail at once) are also evaluated directly on the implementation's traces."),
     "level_note": ("Partial: `hsfz_acks_used_once` and `hsfz_foreign_preserved` are not proved as whole-execution theorems (a read that ends by "
                    "an exception drops the foreign frames it skipped - code behaviour outside the property); the alive-check and "
